@@ -21,8 +21,44 @@ def parseAAns (w : String) : Option (Mx.Ans Nat) :=
   else if w.startsWith "r:" then ((w.drop 2).toString.toNat?).map fun n => Mx.Ans.records (List.replicate n 0)
   else none
 
+def parseMxTtl (w : String) : Option (Mx.Ans (Nat × Nat × Nat)) :=
+  if w == "nodata" then some .noData
+  else if w == "notfound" then some .notFound
+  else if w == "error" then some .error
+  else if w == "r:" then some (.records [])
+  else if w.startsWith "r:" then
+    (((w.drop 2).toString.splitOn ",").mapM fun (x : String) => match x.splitOn "." with
+      | [a, b, c] => match a.toNat?, b.toNat?, c.toNat? with
+        | some p, some h, some t => some ((p, h, t) : Nat × Nat × Nat)
+        | _, _, _ => none
+      | _ => none).map Mx.Ans.records
+  else none
+
+def parseATtl (w : String) : Option (Mx.Ans Nat) :=
+  if w == "nodata" then some .noData
+  else if w == "notfound" then some .notFound
+  else if w == "error" then some .error
+  else if w == "r:" then some (.records [])
+  else if w.startsWith "r:" then (((w.drop 2).toString.splitOn ",").mapM String.toNat?).map Mx.Ans.records
+  else none
+
+/-- `mx cache <step>/<step>/…` with step = `now;attempts;mx-answer;a-answer`: one `MxRecord` through a history of attempts. -/
+def mxCache : Mx.Cache → List String → List String → String
+  | _, [], acc => " / ".intercalate acc.reverse
+  | c, st :: rest, acc =>
+    match st.splitOn ";" with
+    | [now, att, mx, a] =>
+      match now.toNat?, att.toNat?, parseMxTtl mx, parseATtl a with
+      | some n, some k, some m, some aa =>
+        let (c', asked, o) := Mx.routeCached c n ⟨m, aa⟩ k
+        let os := match o with | .deliverTo h => "deliver:" ++ toString h | .permanent => "perm" | .transient => "temp"
+        mxCache c' rest (((if asked then "asked " else "cached ") ++ os) :: acc)
+      | _, _, _, _ => "bad-op"
+    | _ => "bad-op"
+
 def mxOp (args : List String) : String :=
   match args with
+  | ["cache", steps] => mxCache {} (steps.splitOn "/") []
   | ["route", hd, mx, a, att] =>
     match parseMxAns mx, parseAAns a, att.toNat? with
     | some m, some aa, some n =>
